@@ -137,18 +137,6 @@ def pvec(F):
     return np.roll(psp(F, 1), 1, axis=0)
 
 
-def pten(A):
-    """(1|3|9, nx, ny, nz) material array."""
-    A = psp(A, 1)
-    if A.shape[0] == 1:
-        return A
-    if A.shape[0] == 3:
-        return np.roll(A, 1, axis=0)
-    T = A.reshape(3, 3, *A.shape[1:])
-    idx = [2, 0, 1]
-    return T[np.ix_(idx, idx)].reshape(A.shape)
-
-
 def precord(det, key, arr):
     """Expected raw record of the permuted detector from the record `arr` (state entry `key`) of `det`."""
     arr = np.asarray(arr)
